@@ -64,9 +64,21 @@ def _register_client_observers(rig, calls):
 
 def _late_datagrams(rig, transports):
     spa = rig.peer
-    # a STATP that would change watched items (temperature set point area and pump state bytes)
-    recs = b"".join(bytes([p >> 8, p & 255]) + b"\x5a\xa5" for p in (1, 275, 300, 350))
-    statp = b"STATP\x04" + recs
+    # a STATP that changes watched items: pump 1 / light state and demand of the served tables flipped with respect
+    # to the spa's block (+ the fixed positions used from the start, whatever they hold)
+    from ..refmodels.bitfield import Field
+    acc = spa.sim.structure.accessors
+    blk = spa.block
+    nb = blk
+    poss = {1, 275, 300, 350}
+    for tag in ("P1", "UdP1", "LI", "UdLi"):
+        if tag in acc:
+            f = Field.of(acc[tag])
+            cur = f.raw(blk)
+            nb = f.put_raw(nb, 0 if cur else (len(acc[tag].items) - 1 if acc[tag].items else 1))
+            poss.add(f.pos)
+    recs = b"".join(bytes([p >> 8, p & 255]) + (nb[p:p + 2] if p not in (1, 300, 350) else b"\x5a\xa5") for p in sorted(poss))
+    statp = b"STATP" + bytes([len(poss)]) + recs
     for tr in transports:
         proto = tr.protocol
         for content in (statp, b"APING\x00", b"RFERR"):
@@ -337,6 +349,88 @@ def _auto_job(job):
     return None, obs, began
 
 
+def _teardown_window_job(job):
+    """Once the client has been told CLIENT_FACADE_TEARDOWN its device/facade observers are never called again - also not
+    by a partial update that arrives while the client's handler is still suspended inside the reset."""
+    suspend_at, delay = job
+    rig = Rig(Chooser())
+    calls = []
+    told = []
+
+    def on_event(event, kw):
+        if event.name == "CLIENT_FACADE_TEARDOWN" and not told:
+            told.append(rig.loop.time())
+        if event.name == suspend_at and told is not None and rig.man._spa is not None:
+            spa = rig.man._spa
+            if spa._transport is not None and not spa._transport.closed and not injected:
+                injected.append(rig.loop.time())
+                rig.net.inject(spa._transport, frame(SPA_ID, rig.man._client_id, statp[0]), SPA_ADDR, delay=delay)
+            return _slow(0.5)
+        return None
+
+    injected = []
+    if not rig.connect(200.0):
+        rig.close()
+        raise core.HarnessError("C10 teardown window: no connection")
+    rig.loop.run_for(3.0)
+    fac = rig.man.facade
+
+    def obs(tag):
+        def cb(*a):
+            calls.append((rig.loop.time(), tag))
+        return cb
+
+    fac.watch(obs("facade"))
+    for d in fac.all_automation_devices:
+        if d is not None:
+            d.watch(obs(f"device:{d.key}"))
+    # the partial update: the spa reports pump 1 and the light running (state and demand items of the connected tables)
+    from ..refmodels.bitfield import Field
+    acc = rig.spa.accessors
+    nb = rig.peer.block
+    poss = set()
+    for tag in ("P1", "UdP1", "LI", "UdLi"):
+        if tag in acc:
+            f = Field.of(acc[tag])
+            nb = f.put_raw(nb, len(acc[tag].items) - 1 if acc[tag].items else 1)
+            poss.add(f.pos)
+    statp = [b"STATP" + bytes([len(poss)]) + b"".join(p.to_bytes(2, "big") + nb[p:p + 2] for p in sorted(poss))]
+    # control: the same update reaches the client's observers while connected
+    n0 = len(calls)
+    rig.net.inject(rig.spa._transport, frame(SPA_ID, rig.man._client_id, statp[0]), SPA_ADDR)
+    rig.loop.run_for(1.0)
+    if len(calls) == n0:
+        raise core.HarnessError("C10 teardown window: the control update did not reach any client observer")
+    # ... and back, so that the update inside the reset changes values again
+    back = rig.peer.block
+    rig.net.inject(rig.spa._transport, frame(SPA_ID, rig.man._client_id, b"STATP" + bytes([len(poss)]) + b"".join(
+        p.to_bytes(2, "big") + back[p:p + 2] for p in sorted(poss))), SPA_ADDR)
+    rig.loop.run_for(1.0)
+    rig.man.on_event = on_event
+    t = rig.spawn(rig.man.async_reset(), name="HARNESS:reset")
+    rig.loop.run_for(20.0, t.done)
+    rig.loop.run_for(2.0)
+    why = None
+    if not t.done():
+        why = ("inject-hung", "reset did not return")
+    elif not told or not injected:
+        raise core.HarnessError(f"C10 teardown window: teardown told={told} injected={injected}")
+    else:
+        late = [c for c in calls if c[0] > told[0] + 1e-9]
+        if late:
+            why = ("late-observer", f"client observers called after CLIENT_FACADE_TEARDOWN had been delivered (partial update arriving "
+                                    f"{delay}s into the client's {suspend_at} handler): {late[:3]}")
+    obs_d = core.digest([suspend_at, delay, why, len(calls)])
+    try:
+        rig.exit()
+    except Exception:
+        pass
+    rig.close()
+    if why:
+        return (f"C10|reset|{why[0]}|during-teardown", why[1], {"mode": "teardown-window", "suspend_at": suspend_at, "delay": delay}), obs_d
+    return None, obs_d
+
+
 def _cycles(n_cycles=6):
     """Reconnect cycles: resources measured at the same point of every cycle (CONNECTED + 5 s, and
     12 s after the reset) must not grow."""
@@ -422,6 +516,13 @@ def run(ctx):
     ctx.set("automatic_resets_observed", began_n)
     if began_n == 0 and not ctx.violations:
         raise core.HarnessError("C10: no automatic reset was ever observed - vacuous")
+    tjobs = [(ev, d) for ev in ("CLIENT_FACADE_TEARDOWN", "RUNNING_SPA_DISCONNECTED") for d in (0.0, 0.05, 0.15, 0.3)]
+    for (viol, o) in core.pmap(ctx, _teardown_window_job, tjobs, chunksize=1):
+        evals += 1
+        outcomes.add(o)
+        if viol:
+            ctx.violation(*viol)
+    ctx.set("teardown_window_runs", len(tjobs))
     why, counts = _cycles(6 if ctx.quick else 12)
     ctx.set("cycle_counts", [list(c) for c in counts])
     evals += 1
@@ -439,6 +540,14 @@ def run(ctx):
 
 
 def replay(ctx, data):
+    if data.get("mode") == "teardown-window":
+        viol, _ = _teardown_window_job((data["suspend_at"], data["delay"]))
+        if viol:
+            ctx.violation(*viol)
+        ctx.set("evaluations", 1)
+        ctx.set("distinct_nontrivial", 2)
+        ctx.set("rule", "replay")
+        return
     if data.get("mode") == "auto":
         viol, _, _ = _auto_job((data["phase"], data["dur"], data["yielding"]))
         if viol:
